@@ -285,7 +285,7 @@ var seqCfgs = []*seqCfg{
 		// Rename / remove / link semantics between three directories,
 		// including retained handles of removed directories.
 		name: "seq-rename", nslots: 3, slotX: -1, setup: setupTree(false),
-		depth: map[string]int{"quick": 3, "thorough": 5},
+		depth: map[string]int{"quick": 4, "thorough": 6},
 		ops: func(cfg *seqCfg) []mc.SeqOp {
 			var l opList
 			places := cat(at(R, "a", "b", "d"), at(D, "b", "e"), at(E, "a"))
@@ -307,7 +307,7 @@ var seqCfgs = []*seqCfg{
 	{
 		// Worker facing bulk calls mixed with a few kernel facing ones.
 		name: "seq-bulk", nslots: 4, slotX: X, setup: setupTree(true),
-		depth: map[string]int{"quick": 3, "thorough": 5},
+		depth: map[string]int{"quick": 4, "thorough": 5},
 		ops: func(cfg *seqCfg) []mc.SeqOp {
 			var l opList
 			for _, ow := range []bool{false, true} {
@@ -449,7 +449,7 @@ var seqCfgs = []*seqCfg{
 			s.do(c, "setup", func() { s.vOpenChild(R, "a", true, false) })
 		},
 		autoBind: []autoBind{{slot: E, parent: D, name: "e"}},
-		depth:    map[string]int{"quick": 4, "thorough": 6},
+		depth:    map[string]int{"quick": 5, "thorough": 7},
 		ops: func(cfg *seqCfg) []mc.SeqOp {
 			var l opList
 			l.lookup(cat(at(D, "a", "e"), at(R, "d"))...)
